@@ -21,8 +21,26 @@ import (
 // takes exactly one route) on World B.
 
 func init() {
-	Register(&Check{ID: "C17", World: "B/cluster", Gen: genRoute("C17"), Run: runRoute, Real: bReal, Stub: bStub,
-		OwnProbes: []string{"span_forwarded_one_hop", "span_owned_by_entry_node", "owner_agreement_checked_multi_node", "redis_peers"}})
+	routeGen := genRoute("C17")
+	Register(&Check{ID: "C17", World: "B/cluster + D/membership (sharder on real Redis peers)",
+		// a fifth of the runs are World D membership histories (crash, restart,
+		// partition, loss) with a real sharder on every node's real Redis peers
+		Gen: func(r *Rng, tier string, p *Plan) {
+			if r.Bool(0.2) {
+				genPeers(r, tier, p)
+				p.N["with_sharder"] = 1
+				return
+			}
+			routeGen(r, tier, p)
+		},
+		Run: func(t *testing.T, p *Plan) *Outcome {
+			if p.On("with_sharder") {
+				return runPeers(t, p)
+			}
+			return runRoute(t, p)
+		},
+		Real: append(append([]string(nil), bReal...), "World D runs: internal/peer.RedisPubsubPeers + sharder.DeterministicSharder per node"), Stub: bStub,
+		OwnProbes: []string{"span_forwarded_one_hop", "span_owned_by_entry_node", "owner_agreement_checked_multi_node", "redis_peers", "sharder_after_membership_history", "sharder_same_size_replacement", "sharder_on_redis_peers_after_crash"}})
 	Register(&Check{ID: "C19", World: "B/cluster", Gen: genRoute("C19"), Run: runRoute, Real: bReal, Stub: bStub,
 		OwnProbes: []string{"span_forwarded_one_hop", "non_trace_event_direct", "probe_discarded", "forwarded_content_checked", "event_on_peer_listener"}})
 }
@@ -337,15 +355,49 @@ func sharderOnly(p *Plan, out *Outcome) {
 		addrs = append(addrs, fmt.Sprintf("http://10.%d.%d.%d:8081", r.Intn(3), r.Intn(256), i))
 	}
 	views := PickOf(r, 2, 3, 5)
+	newAddr := func() string {
+		return fmt.Sprintf("http://10.%d.%d.%d:8081", r.Intn(3), r.Intn(256), 100+r.Intn(100))
+	}
 	var shs []*sharder.DeterministicSharder
 	for v := 0; v < views; v++ {
 		list := append([]string(nil), addrs...)
 		sort.Slice(list, func(a, b int) bool { return H(p.Seed, "view", v, list[a]) < H(p.Seed, "view", v, list[b]) })
 		self := list[r.Intn(len(list))]
-		sh := &sharder.DeterministicSharder{Config: &config.MockConfig{}, Logger: &logger.NullLogger{}, Peers: peer.NewMockPeers(list, self)}
+		// every view but the first reaches the list through its own history of
+		// membership changes: it starts on another list and is told of each change
+		hist := [][]string{}
+		if v > 0 {
+			cur := append([]string(nil), list...)
+			for k := r.Intn(4); k > 0; k-- {
+				prev := append([]string(nil), cur...)
+				switch r.Intn(3) {
+				case 0: // one peer replaced by another: same size
+					i := r.Intn(len(prev))
+					if prev[i] != self {
+						prev[i] = newAddr()
+						out.Probe("sharder_same_size_replacement")
+					}
+				case 1: // one more
+					prev = append(prev, newAddr())
+				default: // one fewer
+					if i := r.Intn(len(prev)); len(prev) > 1 && prev[i] != self {
+						prev = append(prev[:i], prev[i+1:]...)
+					}
+				}
+				hist = append([][]string{prev}, hist...)
+				cur = prev
+			}
+		}
+		hist = append(hist, list)
+		mp := peer.NewMockPeers(hist[0], self)
+		sh := &sharder.DeterministicSharder{Config: &config.MockConfig{}, Logger: &logger.NullLogger{}, Peers: mp}
 		if err := sh.Start(); err != nil {
 			out.Harness = "sharder start: " + err.Error()
 			return
+		}
+		for _, l := range hist[1:] {
+			mp.UpdatePeers(l)
+			out.Probe("sharder_after_membership_history")
 		}
 		shs = append(shs, sh)
 	}
